@@ -97,7 +97,8 @@ struct World {
         for (size_t t = 1; t <= U.size(); ++t) {
             const UniValue& T = U[t - 1];
             CMutableTransaction m;
-            m.version = T["ver"].getInt<int>();
+            // version codes 98 / 99 stand for 0x80000000 / 0xffffffff (TLC integers are 32-bit signed)
+            { const int v = T["ver"].getInt<int>(); m.version = v == 98 ? 0x80000000u : v == 99 ? 0xffffffffu : (uint32_t)v; }
             const std::string lk = T["lock"]["kind"].get_str();
             m.nLockTime = lk == "none" ? 0 : lk == "height" ? (uint32_t)T["lock"]["v"].getInt<int>() : (uint32_t)(g_base.t0 + T["lock"]["v"].getInt<int64_t>());
             bool all_known = true; CAmount in = 0, out = 0;
@@ -113,9 +114,25 @@ struct World {
                 if (cls == "true") spk = CScript() << OP_TRUE;
                 else if (cls == "opret") spk = CScript() << OP_RETURN << std::vector<unsigned char>(20, (unsigned char)t);
                 else if (cls == "fail") spk = CScript() << OP_1 << OP_VERIFY << OP_0;
+                else if (cls == "big") {
+                    // anyone-can-spend script of exactly MAX_SCRIPT_SIZE (10000) bytes: 19 x (520-byte push + DROP), a 41-byte push + DROP, OP_TRUE
+                    for (int k = 0; k < 19; ++k) spk << std::vector<unsigned char>(520, (unsigned char)(k + 1)) << OP_DROP;
+                    spk << std::vector<unsigned char>(41, 0x42) << OP_DROP << OP_TRUE;
+                    if (spk.size() != 10000) throw std::runtime_error("big script is not 10000 bytes");
+                }
                 else throw std::runtime_error("bad script class");
                 m.vout.emplace_back(T["outs"][i]["v"].getInt<int64_t>(), spk);
                 out += T["outs"][i]["v"].getInt<int64_t>();
+            }
+            if (T.exists("bulk") && T["bulk"].getInt<int>() > 0) {
+                // `bulk` outputs of MAX_MONEY each plus one residue output: the exact total is far above MAX_MONEY, but a 64-bit
+                // accumulator that is only range-checked at the end wraps around to the sum of the listed outputs
+                const int nb = T["bulk"].getInt<int>();
+                unsigned __int128 tot = (unsigned __int128)nb * (unsigned __int128)MAX_MONEY;
+                const unsigned __int128 two64 = (unsigned __int128)1 << 64;
+                const unsigned __int128 residue = (two64 - (tot % two64)) % two64;
+                for (int k = 0; k < nb; ++k) m.vout.emplace_back(MAX_MONEY, CScript() << OP_TRUE);
+                if (residue > 0 && residue <= (unsigned __int128)MAX_MONEY) m.vout.emplace_back((CAmount)residue, CScript() << OP_TRUE);
             }
             // distinguish otherwise identical transactions and stay away from the 64-byte ambiguity
             m.vout.emplace_back(0, CScript() << OP_RETURN << std::vector<unsigned char>(30, (unsigned char)(0xA0 + t)));
